@@ -74,7 +74,9 @@ def gen_ops(rng, secs, species):
                 s, k = rng.choice(existing)
                 k = variant(rng, norm(k)) if rng.random() < 0.6 else k
             else:
-                s, k = rng.choice([("Pair", "Zz-Zz"), ("Missing", "x"), ("Tabulation", "dr")])
+                # items that do not exist - including a key that exists only as a [Variables] entry (variables are not items of other sections)
+                varkeys = [("Pair", kk) for kk, vv in secs.get("Variables", [])] + [("Potential-Form", kk) for kk, vv in secs.get("Variables", [])]
+                s, k = rng.choice([("Pair", "Zz-Zz"), ("Missing", "x"), ("Tabulation", "dr")] + varkeys)
             if kind == "remove":
                 ops.append(["remove", s, k])
             else:
@@ -87,6 +89,9 @@ def gen_ops(rng, secs, species):
             elif r < 0.85 and existing:
                 s, k = rng.choice(existing)
                 ops.append(["add", s, variant(rng, norm(k)), "as.zero" if s == "Pair" else "dup"])
+            elif r < 0.93 and secs.get("Variables"):
+                # adding a [Pair] item whose key is the name of a variable is a plain addition (of a malformed pair key: the outcome must equal the hand edit's)
+                ops.append(["add", "Extra", secs["Variables"][0][0], "named like a variable"])
             else:
                 ops.append(["add", "Extra", "note", "hello"])
     return ops
